@@ -276,6 +276,14 @@ ClashTerms ==
                                    Bn("and", Bn("=", K, Own("a")), Bn("=", K, StrA("$s")))}}
   \cup {Qn("forall", "k", SetOf(<<StrA("$s"), StrA("$t")>>), b) :
                             b \in {Bn(">", K, NumA("0")), Bn("or", Bn("=", K, Own("a")), Bn(">", Bn("+", K, NumA("1")), NumA("0"))), Un("not", K)}}
+  \* ... and of a set literal whose members are COMPUTED (operator / function results, whose type is exact), alone or next to
+  \* literals and references
+  \cup {Qn(q, "k", d, b) : q \in {"forall", "exists"},
+                            d \in {SetOf(<<Bn("+", Own("n"), NumA("1")), NumA("2")>>), SetOf(<<Un("-", Own("n"))>>), SetOf(<<Call("len", Own("xs")), NumA("3")>>),
+                                   SetOf(<<Bn("*", Own("n"), Own("m"))>>)},
+                            b \in {Bn("=", K, StrA("$s")), Un("not", K), Bn("and", Bn("=", K, Own("a")), K)}}
+  \cup {Qn(q, "k", SetOf(<<Bn("<", Own("a"), Own("b"))>>), b) : q \in {"forall", "exists"},
+                            b \in {Bn(">", Idx(Own("ys"), K), NumA("0")), Bn(">", K, NumA("0")), Bn("=", K, StrA("$s"))}}
   \* the argument of an overloaded function (message | 4 numbers ; compound | numbers) reused at number type
   \cup {Bn("and", Bn(">", Call(f, Own("q")), NumA("0")), Bn("=", Own("q"), NumA("1"))) : f \in {"roll", "pitch", "yaw", "max", "min", "gcd"}}
   \cup {Bn("or", Bn(">", Bn("+", Own("q"), NumA("1")), NumA("0")), Bn("<", Call(f, Own("q")), NumA("3"))) : f \in {"yaw", "min", "gcd", "len", "sum"}}
